@@ -1,6 +1,7 @@
 import Propka.Model.Program
 import Propka.Model.Output
 import Propka.Props.C01
+import Propka.Props.C08
 import Propka.Props.C07
 import Propka.Props.C12
 import Propka.Props.C13
@@ -104,6 +105,52 @@ theorem averageL_single (z : α) (g : Dets.GRec α) :
     (averageL z [g]).pka = (z + g.pka) / ((1 : Nat) : α) := by
   simp [averageL, Dets.divAcc, iaddL]
 end
+
+/-! ### topping-up on the program model (C08) -/
+/-- the copy loop of the program model (on whole atom records) is the copy loop of the C08 model on the keys of the records -/
+theorem copyLoopR_keys (labels : List String) : ∀ (names : TopUp.Names) (l : List AtomRec),
+    (copyLoopR labels names l).map keyOf = TopUp.copyLoop labels names (l.map keyOf)
+  | _, [] => rfl
+  | names, a :: rest => by
+    unfold copyLoopR TopUp.copyLoop
+    simp only [List.map_cons, keyOf]
+    by_cases hl : labels.contains (residueLabel a) = true
+    · rw [if_pos hl, if_pos hl]; exact copyLoopR_keys labels names rest
+    · rw [if_neg hl, if_neg hl]
+      cases hn : TopUp.lookupName names (a.chain, a.resNum, a.icode) with
+      | some n =>
+        simp only
+        by_cases hne : n ≠ a.resName
+        · rw [if_pos hne, if_pos hne]; exact copyLoopR_keys labels names rest
+        · rw [if_neg hne, if_neg hne, List.map_cons]
+          congr 1
+          exact copyLoopR_keys labels names rest
+      | none =>
+        simp only [List.map_cons]
+        congr 1
+        exact copyLoopR_keys labels _ rest
+
+/-- **C08 on the program model, never merging residue types**: whatever a conformation is completed with, two copied atoms of one
+    residue position (chain, number, insertion code) carry one residue name, and it is the name the conformation's own atoms give that
+    position when they give one. -/
+theorem program_copy_no_merge (labels : List String) (names : TopUp.Names) (ref : List AtomRec) (a b : AtomRec)
+    (ha : a ∈ copyLoopR labels names ref) (hb : b ∈ copyLoopR labels names ref)
+    (h1 : b.chain = a.chain) (h2 : b.resNum = a.resNum) (h3 : b.icode = a.icode) :
+    b.resName = a.resName ∧ ∀ n, TopUp.lookupName names (a.chain, a.resNum, a.icode) = some n → n = a.resName := by
+  have hka : keyOf a ∈ TopUp.copyLoop labels names (ref.map keyOf) := by
+    rw [← copyLoopR_keys]; exact List.mem_map.mpr ⟨a, ha, rfl⟩
+  have hkb : keyOf b ∈ TopUp.copyLoop labels names (ref.map keyOf) := by
+    rw [← copyLoopR_keys]; exact List.mem_map.mpr ⟨b, hb, rfl⟩
+  have := TopUp.copy_no_merge labels names (ref.map keyOf) (keyOf a) hka
+  exact ⟨this.2 (keyOf b) hkb h1 h2 h3, this.1⟩
+
+/-- every conformation keeps its own atoms, in order, in front of the copies -/
+theorem program_own_atoms_kept (recs : List AtomRec) (c : String × List AtomRec) (hc : c ∈ toppedUp recs) :
+    ∃ own, (c.1, own) ∈ conformations recs ∧ own <+: c.2 := by
+  unfold toppedUp at hc
+  simp only [List.mem_map] at hc
+  obtain ⟨c0, h0, rfl⟩ := hc
+  exact ⟨c0.2, h0, List.prefix_append _ _⟩
 
 /-! ### the summary of the .pka file (C01, C02) -/
 /-- **C01 / C02, on the output model**: the summary section of the .pka file has, for every reported group whose residue type is in
